@@ -566,6 +566,8 @@ fn run<T: Form + TJ + Clone>(case: &J) -> J {
             match msgpack_of(&x) {
                 Ok(buf) => {
                     o["mp_len"] = json!(buf.len());
+                    // the marker of the record body (a record starts with the map of its attributes: fixmap 0 if none)
+                    o["mp_first"] = json!(if buf.first() == Some(&0x80) { buf.get(1).copied() } else { None });
                     // the consuming writer (write_into) must produce the same bytes
                     let mut into_buf = BytesMut::with_capacity(256);
                     let into_ok = {
@@ -642,6 +644,8 @@ battery! {
     "VecBodyStr" => Vec<BodyStr>, "VecShape" => Vec<Shape>, "VecOpSI" => Vec<Op<String, i32>>, "VecTagField" => Vec<TagField>,
     "VecTup" => Vec<Tup>, "VecOpt" => Vec<Opt>, "MapShape" => HashMap<String, Shape>,
     "VecAttrVec" => Vec<AttrVec>, "VecAttrMap" => Vec<AttrMap>, "Duration" => std::time::Duration,
+    "WMap15" => HashMap<i32, i32>, "WMap16" => HashMap<i32, i32>, "WMap17" => HashMap<i32, i32>, "WMap300" => HashMap<i32, i32>,
+    "WVec15" => Vec<i32>, "WVec16" => Vec<i32>, "WVec300" => Vec<i32>, "WStr" => String, "WBlob" => Vec<u8>,
     "RetryStrategy" => RetryStrategy, "Value" => Value, "AttrTup" => AttrTup, "HBodyTup" => HBodyTup,
 }
 
